@@ -18,6 +18,12 @@ RULE = (
     "under all options. distinct = blake2b(payload); non-trivial = MSM message with >= 1 cell, or a non-MSM message "
     "with >= 3 attributes"
 )
+RULE += (
+    ' Also: option order shuffled per case; RINEX codes pinned for option 1; under option 2 a signal with'
+    ' a pinned RINEX code must not carry that code; inputs as bytearray / subclass / memoryview; two live'
+    ' readers with different options read alternately; truncated payloads must fail the same way under all'
+    ' four option values.'
+)
 ASSUMPTIONS = ["option value 0 is only required to leave non-label attributes untouched (its label style is not specified)",
                "under the frequency-band option a signal with a pinned RINEX code is not labelled with that RINEX code "
                "(band labels and RINEX observation codes are different vocabularies)"]
